@@ -152,9 +152,9 @@ Qed.
 Lemma valid_sigma_id : valid_sigma sigma_id.
 Proof. intros p x l. apply Permutation_refl. Qed.
 
-Lemma valid_load_b : forall v g pi, dc_struct_ok v = true -> wf_graphb g = true -> topob g pi = true ->
+Lemma valid_load_b : forall v g pi, dc_struct_ok v = true -> v_inplace v = false -> wf_graphb g = true -> topob g pi = true ->
   String.eqb (hd "" pi) (root_of g) = true -> valid_load v g pi sigma_id.
 Proof.
-  intros v g pi H1 H2 H3 H4. constructor; [exact H1 | exact H2 | | exact valid_sigma_id].
+  intros v g pi H1 H0 H2 H3 H4. constructor; [exact H1 | exact H0 | exact H2 | | exact valid_sigma_id].
   apply topob_valid; [exact H3 | apply String.eqb_eq; exact H4].
 Qed.
